@@ -8,6 +8,7 @@ import enum
 import json
 
 import attr
+import dateutil.tz
 import six
 import urllib3
 
@@ -17,6 +18,13 @@ from cryptodatahub.common.types import Base64Data, convert_base64_data, convert_
 from cryptoparser.common.base import Serializable
 from cryptoparser.common.exception import InvalidType, NotEnoughData
 from cryptoparser.common.parse import ParserText, ParsableBase, ParsableBaseNoABC, ComposerText
+
+
+def _to_gmt(value):
+    if value.tzinfo is not None and value.utcoffset() is not None:
+        return value.astimezone(dateutil.tz.UTC)
+
+    return value
 
 
 def _to_printable(value):
@@ -427,7 +435,7 @@ class FieldValueComponentDateTime(FieldValueComponentKeyValueBase):
         parser.parse_date_time('value')
 
     def _get_value_as_simple_type(self):
-        return self.value.strftime('%a, %d %b %Y %H:%M:%S GMT')
+        return _to_gmt(self.value).strftime('%a, %d %b %Y %H:%M:%S GMT')
 
 
 @attr.s
@@ -988,7 +996,7 @@ class FieldValueDateTime(FieldValueSingleComplexBase):
     def compose(self):
         composer = ComposerText()
 
-        composer.compose_date_time(self.value, '%a, %d %b %Y %H:%M:%S GMT')
+        composer.compose_date_time(_to_gmt(self.value), '%a, %d %b %Y %H:%M:%S GMT')
 
         return composer.composed
 
